@@ -22,6 +22,7 @@ type Env struct {
 	block  *ssa.BasicBlock
 	inOld  bool
 	obs    *[]ObsTerm
+	home   *types.Package // package in which the contract being evaluated was written
 	bound  bool // inside a quantifier: terms mention bound variables
 }
 
@@ -376,6 +377,11 @@ func (e *Exec) evalIdent(name string, env *Env) Val {
 			return v
 		}
 	}
+	if env.home != nil {
+		if v, ok := e.pkgObject(env.home, name, env); ok {
+			return v
+		}
+	}
 	e.unsupported("unknown identifier %q in specification", name)
 	return Val{}
 }
@@ -472,6 +478,18 @@ func (e *Exec) evalBinary(x EBinary, env *Env) Val {
 	}
 	a := e.evalSpec(x.X, env)
 	b := e.evalSpec(x.Y, env)
+	if (x.Op == "==" || x.Op == "!=") && ((a.S == "nil" && b.S == SSlice) || (b.S == "nil" && a.S == SSlice)) {
+		// a slice is nil iff it has no backing store (Go's s == nil)
+		sl := a
+		if a.S == "nil" {
+			sl = b
+		}
+		t := Eq(e.sbase(sl.T), "0")
+		if x.Op == "!=" {
+			t = Not(t)
+		}
+		return boolVal(t)
+	}
 	a, b = e.unify(a, b)
 	switch x.Op {
 	case "==", "!=":
@@ -539,7 +557,9 @@ func (e *Exec) evalSel(x ESel, env *Env) Val {
 			}
 			if _, isGhost := e.P.Spec.Ghosts[id.Name]; !shadow && !isGhost {
 				var from *types.Package
-				if env.fr != nil && env.fr.fn.Pkg != nil {
+				if env.home != nil {
+					from = env.home
+				} else if env.fr != nil && env.fr.fn.Pkg != nil {
 					from = env.fr.fn.Pkg.Pkg
 				} else if e.curFrame != nil && e.curFrame.fn.Pkg != nil {
 					from = e.curFrame.fn.Pkg.Pkg
@@ -591,6 +611,10 @@ func (e *Exec) evalSel(x ESel, env *Env) Val {
 				// nested struct: a value (token) that also knows where its fields live
 				sub := e.subRef(h, ref)
 				return Val{T: e.loadStruct(ft, sub, env.st), S: SInt, Ty: ft, SRef: sub}
+			}
+			if arr, ok := ft.Underlying().(*types.Array); ok {
+				eh, ehs := e.elemHeap(arr.Elem())
+				return Val{T: Sel(e.get(env.st, eh, ehs), e.subRef(h, ref)), S: e.sortOf(ft), Ty: ft}
 			}
 			return Val{T: Sel(e.get(env.st, h, hs), ref), S: e.sortOf(ft), Ty: ft}
 		}
@@ -685,6 +709,11 @@ func (e *Exec) evalCall(x ECall, env *Env) Val {
 		return intVal("(s_base " + arg(0).T + ")")
 	case "off":
 		return intVal("(s_off " + arg(0).T + ")")
+	case "pad32":
+		// the [32]byte obtained by copying a byte slice into a zeroed [32]byte, as Bytes
+		v := arg(0)
+		h, hs := e.elemHeap(types.Typ[types.Uint8])
+		return Val{T: "(mkb 32 (take32 " + Sel(e.get(env.st, h, hs), e.sbase(v.T)) + " " + e.soff(v.T) + " " + e.slen(v.T) + "))", S: SBytes}
 	case "key48":
 		// the [48]byte value obtained by copying a byte slice into a zeroed [48]byte
 		v := arg(0)
@@ -707,7 +736,8 @@ func (e *Exec) evalCall(x ECall, env *Env) Val {
 		}
 		if v.Ty != nil {
 			if arr, ok := v.Ty.Underlying().(*types.Array); ok {
-				return Val{T: "(mkb " + IntLit(arr.Len()) + " " + v.T + ")", S: SBytes}
+				// same shape as the snapshot of a slice over the whole array
+				return Val{T: "(snapb " + v.T + " 0 " + IntLit(arr.Len()) + ")", S: SBytes}
 			}
 		}
 		e.unsupported("bytes() of %s", v.S)
@@ -880,7 +910,7 @@ func (e *Exec) evalCall(x ECall, env *Env) Val {
 	}
 	if sf.Body != nil && !(sf.Opaque && !e.reveal[sf.Name]) {
 		// macro expansion in the current state
-		n := &Env{e: e, vars: map[string]Val{}, st: env.st, old: env.old, fr: nil, result: env.result, bound: env.bound, inOld: env.inOld, obs: nil}
+		n := &Env{e: e, vars: map[string]Val{}, st: env.st, old: env.old, fr: nil, result: env.result, bound: env.bound, inOld: env.inOld, obs: nil, home: env.home}
 		var lets []string
 		for i, p := range sf.Params {
 			v := arg(i)
